@@ -44,6 +44,13 @@ def gen(ctx):
     yield dict(kind="ami", ca=[[1, 10], [10, 1], [1, 0], [0, 1]], d=1, dtype="int64")          # D5: multi-character states
     yield dict(kind="ami", ca=[[0, 1, 1], [1, 1, 0], [1, 0, 1], [0, 0, 1], [1, 1, 1], [0, 1, 0]], d=4, dtype="int64")   # D6: T=6 > N=3
     yield dict(kind="ami", ca=[[0, 1, 1, 0, 1, 0], [1, 1, 0, 0, 1, 1], [1, 0, 1, 1, 1, 0]], d=4, dtype="int64")          # D6: T=3 < N=6
+    # states that differ only beyond the 53rd bit are different symbols
+    for _ in range(ctx.n(30, 300)):
+        T, N = rng.randint(3, 9), rng.randint(1, 4)
+        base = rng.choice([2 ** 53, 2 ** 62, -(2 ** 60)])
+        ca = [[base + rng.randrange(3) for _ in range(N)] for _ in range(T)]
+        yield dict(kind="ace", ca=ca, dtype="int64", huge=1)
+        yield dict(kind="ami", ca=ca, d=rng.randint(1, T - 1), dtype="int64", huge=1)
     for _ in range(ctx.n(400, 4000)):
         s = rand_string(rng)
         yield dict(kind="H", s=s)
@@ -122,6 +129,8 @@ def line(c):
 
 def make_ca(c):
     a = np.array(c["ca"], dtype=np.int64)
+    if c.get("huge"):
+        return a
     if c["dtype"] == "float64":
         return a.astype(np.float64) / 10.0
     lo, hi = int(a.min()) if a.size else 0, int(a.max()) if a.size else 0
